@@ -122,6 +122,9 @@ def run(F):
             rv = st["rv"]
             if st["place"]["l"] == 0 and rv["k"] == "agg" and rv["kind"].get("variant") == "Ok":
                 ok_blocks.add(bi)
+        # a Result-returning gate in tail position (`moles.iter().try_for_each(|&n| check(n))`) hands its own Ok(()) on
+        tail_blocks = {bi for bi, t in b.calls() if t["dest"]["l"] == 0 and not t["dest"]["p"] and callee(t)[2] not in ("from_residual",)}
+        ok_blocks |= tail_blocks
         if not ok_blocks:
             r.fail("validate|no-ok", b.file_line(), "validate has no Ok(()) return")
         # Value classes of an f64 and the answers of the std predicates on them.  A State may only be built from the last class.
@@ -189,6 +192,32 @@ def run(F):
                 continue
             pred = None
             how = None
+            # Result-returning gates: `check(value)?`, `iter.try_for_each(|x| check(x))`
+            gate = None
+            gparams = set()
+            if name in ("try_for_each", "try_fold") and len(t["args"]) >= 2:
+                gate = F.body(boolsum.closure_def_of_type(b.opty(t["args"][-1])) or "")
+                gparams = params_of(t["args"][0])
+            else:
+                cb = F.callee_body(t)
+                if cb is not None and str((cb.lty(0) or {}).get("s", "")).startswith("std::result::Result<") and cb.path != b.path \
+                        and cb.path.startswith("feos_core::"):
+                    gate = cb
+                    for a in t["args"]:
+                        gparams |= params_of(a)
+            if gate is not None and gparams:
+                gt = {c: boolsum.evaluate(F, gate, CLASSES[c]) for c in CLASSES}
+                if all(v in ("Ok", "Err") for v in gt.values()):
+                    if bi in tail_blocks:
+                        sites.append((gparams, t["span"], "gate(tail)", {c: ("REJECT" if gt[c] == "Err" else "PASS") for c in CLASSES}))
+                    else:
+                        for (sb, cont) in continue_edges_of(b, defs, bi):
+                            tt = b.blocks[sb]["term"]
+                            brk = [x for v_, x in tt["targets"] if x != cont] + ([tt["otherwise"]] if tt["otherwise"] != cont else [])
+                            brk = [x for x in brk if b.blocks[x]["term"]["k"] != "unreachable"]
+                            if brk:
+                                sites.append((gparams, t["span"], "gate(?)", {c: (brk[0] if gt[c] == "Err" else cont) for c in CLASSES}))
+                    continue
             if name in ("call", "call_mut", "call_once") and len(t["args"]) == 2:
                 pred = F.body(boolsum.closure_def_of_type(b.opty(t["args"][0])) or "")
                 params = params_of(t["args"][1])
@@ -226,7 +255,7 @@ def run(F):
             mine = [s_ for s_ in sites if pr in s_[0]]
             for c in INVALID:
                 iid = "validate|%s(param %d)" % (c, pr)
-                rejecting = [s_ for s_ in mine if s_[3][c] is not None and not leaks(s_[3][c])]
+                rejecting = [s_ for s_ in mine if s_[3][c] == "REJECT" or (s_[3][c] is not None and s_[3][c] != "PASS" and not leaks(s_[3][c]))]
                 if rejecting:
                     r.inst(iid, rejecting[0][1], "ok", via=rejecting[0][2])
                     continue
